@@ -27,7 +27,7 @@ def build(tier, ctx):
         stores += list(itertools.combinations_with_replacement(itm, 3))
         two = [(nm, sh) for nm in NAMES for sh in (SH[1], SH[2])]
         stores += list(itertools.combinations_with_replacement(two, 4))
-    chunk = 4 if tier == "quick" else 12
+    chunk = 2 if tier == "quick" else 8
     return [{"stores": stores[i:i + chunk]}
             for i in range(0, len(stores), chunk)]
 
@@ -50,33 +50,62 @@ def filters_for(byname):
 
 
 def run_store(store):
+    bad = []
+    n = hits = 0
+    names = {nm for nm, _ in store}
+    for shared in ((False, True) if len(names) > 1 else (False,)):
+        k, b, h = run_store_mode(store, shared)
+        n += k
+        hits += h
+        bad += b
+    return n, bad, hits
+
+
+def run_store_mode(store, shared):
+    """shared: trace ids are only unique per workflow name (two workflows
+    reuse the same ids); span ids stay globally unique"""
     from tel2puml.otel_to_pv.sequence_otel import \
         job_ids_to_eventid_to_otelevent_map
     bad = []
     n = 0
     boundary_hits = 0
     traces = [om.spans_of(sh, f"j{k}", nm) for k, (nm, sh) in enumerate(store)]
+    names = sorted({nm for nm, _ in store})
+    rank = {}
+    jid_of = {}
+    for k, (nm, _) in enumerate(store):
+        r = rank.get(nm, 0)
+        rank[nm] = r + 1
+        jid_of[k] = f"t{r}" if shared else f"j{k}"
+    for k, t in enumerate(traces):
+        for sp in t:
+            sp['job_id'] = jid_of[k]
     allspans = {s['event_id']: s for t in traces for s in t}
     kids = {}
     for s in allspans.values():
         if s['parent_event_id']:
             kids.setdefault(s['parent_event_id'], set()).add(s['event_id'])
     orders = om.ingestion_orders(traces)
-    names = sorted({nm for nm, _ in store})
-    byname = {nm: [f"j{k}" for k, (n2, _) in enumerate(store) if n2 == nm]
+    byname = {nm: [jid_of[k] for k, (n2, _) in enumerate(store) if n2 == nm]
               for nm in names}
     # positions (in the ordered row stream) at which a trace/name group ends
     ordered = sorted(allspans.values(),
                      key=lambda s: (s['job_name'], s['job_id']))
     ends = {i + 1 for i in range(len(ordered) - 1)
-            if ordered[i]['job_id'] != ordered[i + 1]['job_id']}
+            if (ordered[i]['job_name'], ordered[i]['job_id']) !=
+            (ordered[i + 1]['job_name'], ordered[i + 1]['job_id'])}
+    filters = filters_for(byname)
+    if shared:
+        # select different ids under two names that both hold both ids
+        filters["cross"] = {names[0]: {byname[names[0]][0]},
+                            names[1]: {byname[names[1]][-1]}}
     for bs in BATCHES:
         if any(e % bs == 0 for e in ends):
             boundary_hits += 1
         for on, order in orders.items():
             if on == "childfirst":
                 continue
-            for fn, flt in filters_for(byname).items():
+            for fn, flt in filters.items():
                 for consumer in ("pipeline", "nested"):
                     n += 1
                     h = impl_otel.new_holder(batch_size=bs)
@@ -99,7 +128,7 @@ def run_store(store):
                                               for e in j] for j in jobs]))
                     except Exception as e:
                         bad.append({"bs": bs, "order": on, "filter": fn,
-                                    "consumer": consumer,
+                                    "consumer": consumer, "shared": shared,
                                     "problem": ["exception", type(e).__name__,
                                                 str(e)[:160]]})
                         continue
@@ -108,7 +137,8 @@ def run_store(store):
                     prob = compare(got, flt, byname, allspans, kids)
                     if prob:
                         bad.append({"bs": bs, "order": on, "filter": fn,
-                                    "consumer": consumer, "problem": prob})
+                                    "consumer": consumer, "shared": shared,
+                                    "problem": prob})
     return n, bad, boundary_hits
 
 
@@ -131,7 +161,7 @@ def compare(got, flt, byname, allspans, kids):
         for j in jobs:
             jid = j[0][0]
             exp = {s['event_id'] for s in allspans.values()
-                   if s['job_id'] == jid}
+                   if s['job_id'] == jid and s['job_name'] == nm}
             if sorted(e[1] for e in j) != sorted(exp):
                 return ["spans", jid, sorted(e[1] for e in j), sorted(exp)]
             for e in j:
@@ -178,12 +208,14 @@ def collect(tier, tasks, results, ctx):
         for b in r["bad"]:
             viol.append({
                 "key": input_key(["C12", b["store"], b["bs"], b["order"],
-                                  b["filter"], b["consumer"]]),
+                                  b["filter"], b["consumer"],
+                                  bool(b.get("shared"))]),
                 "what": f"store={b['store']} batch={b['bs']} order={b['order']}"
                         f" filter={b['filter']} consumer={b['consumer']}: "
                         f"{b['problem']}",
-                "input": {k: b[k] for k in ("store", "bs", "order", "filter",
-                                            "consumer")},
+                "input": {k: b.get(k) for k in ("store", "bs", "order",
+                                                "filter", "consumer",
+                                                "shared")},
                 "observed": b["problem"]})
     he = None
     if hits == 0:
@@ -219,5 +251,6 @@ def replay(rec, ctx):
     store = [(nm, _tt(sh)) for nm, sh in i["store"]]
     n, bad, _ = run_store(store)
     bad = [b for b in bad if all(b[k] == i[k] for k in
-                                 ("bs", "order", "filter", "consumer"))]
+                                 ("bs", "order", "filter", "consumer"))
+           and bool(b.get("shared")) == bool(i.get("shared"))]
     return bool(bad), repr([b["problem"] for b in bad])[:300]
